@@ -34,6 +34,8 @@ CONFIG = dict(
         "Rbgp.Rib.PropsC02.addpath_is_prefix",
         "Rbgp.Rib.PropsC02.ecmp_is_leading_run",
         "Rbgp.Rib.PropsC02.order_independent",
+        "Rbgp.Rib.PropsC02.rs_local_unbeaten",
+        "Rbgp.Rib.PropsC02.api_list_follows_ranking",
     ],
     harness=dict(kind="pt", bin="c02"),
     profiles=["debug", "release"], profile_in_case=True,
@@ -46,9 +48,14 @@ CONFIG = dict(
          "mobility none/0/1 (also behind another extended community) on EVPN type-2), up to 6 prefixes, up to 5 sessions incl. a "
          "restarted session of the same peer address, arrival orders, replace / remove / drop / restale / restale_llgr / three "
          "purges / next-hop flips / deferral / prefix limits; thorough adds all 120 arrival orders of 5-path sets; plus "
-         "structural mutations (mostly rejected as bad-case by both sides); distinct = distinct case line",
-    expect_tokens=["nochange", "limit", "(stale 0", "(llgr 0", "(fam ev (dests ((m", "t - 2 (", "t - 3 (", "f t - 1 (",
-                   "(chs)", "(bad-case)", "t t 1 "],
+         "structural mutations (mostly rejected as bad-case by both sides); a GR-helper stream (announce, restale[-llgr], restarted "
+         "session re-announces, End-of-RIB purges, withdrawals); an allocator stream (66..131 prefixes, removals around the 64-bit word "
+         "boundaries, re-insertions, shard index 0/1/3/200/254); LOCAL_PREF 2^16+100 and 2^32-1, router-id / ORIGINATOR_ID >= 2^31, "
+         "AS_PATHs of 1019/1020 hops (4088 bytes; thorough: 16315 hops = 65400 bytes), EVPN 0x06 communities that are not MAC "
+         "mobility; observed per step: every returned NlriChange (new_best, ecmp path ids), destinations() for Global with and "
+         "without filtered paths, AdjIn(peer), RsLocal(peer), collect_loc_rib_paths[_limited 2/3]; distinct = distinct case line",
+    expect_tokens=["nochange", "limit", "(stale 0", "(llgr 0", "(fam ev (dests ((m", "(chs)", "(bad-case)",
+                   "purge-hit", "restale-rebest", "restale-llgr-rebest", "id-ge-64", "id-ge-128", "(rslocal (1 ((", "(adjin (1 (("],
     trusted_base=["model Rbgp/Rib/Model.lean of table/src/lib.rs (Table and friends) + packet/src/bgp.rs as_path_length",
                   "harness/pt/src/rib.rs: drives the real Table through its public API; Arc<Source>/Arc<Vec<Attribute>> "
                   "identities are mapped to the index of the case's source / attribute table; hash-map outputs are sorted"],
@@ -57,7 +64,9 @@ CONFIG = dict(
                            "comparison keys cached per entry (Rust recomputes the same pure getters per comparison)",
                            "cross-shard window between a Source flag flip and another shard's re-sort",
                            "u32 wrap-around of Destination.next_path_id", "hash-map iteration order (association lists)"],
-    assumptions=["a case is well-formed (Case.Good): sources and attribute sets are referred to by their position (Arc identity), "
+    assumptions=["one session of a peer is established at a time (C07): both codecs reject a case in which two Sources of one "
+                 "address announce / withdraw in a family without a drop / restale in between",
+                 "a case is well-formed (Case.Good): sources and attribute sets are referred to by their position (Arc identity), "
                  "every Source is used with one family (daemon: one Source per negotiated family), AS_PATH bytes are whole "
                  "segments of type 1..4 (what Attribute::decode guarantees); both codecs reject other cases as (bad-case)"],
     claimed=True,
